@@ -348,6 +348,26 @@ fn string_atoms_leg(g: &Grammar) -> Acc {
             acc.count("rule_string_texts", 1);
         }
     }
+    // a string literal in the `@name` position denotes the rule's name, character for character
+    for (l, e) in lits.iter().zip(exp.iter()) {
+        let text = format!("@name: {l};\nx");
+        acc.count("executions", 1);
+        acc.count("name_literal_texts", 1);
+        let want = match e {
+            RV::Str(s) => s.clone(),
+            _ => continue,
+        };
+        let got = crate::engine::panic::catch(|| reval::prelude::Rule::parse(&text).map(|r| r.name().to_string()).map_err(|e| e.to_string()));
+        let ok = matches!(&got, Ok(Ok(n)) if *n == want);
+        if !ok {
+            acc.violation(Violation {
+                sig: format!("name-literal/{}", if matches!(got, Ok(Ok(_))) { "different" } else { "rejected" }),
+                what: format!("Rule::parse({text:?}): the name literal denotes {want:?}, got {got:?}"),
+                case: json!({"kind": "name-literal", "text": text, "want": want}),
+                size: text.len(),
+            });
+        }
+    }
     acc.sample("string-literal", 1, || json!(["\"é\\n😀\"", "\"\\u{1F600}//\\\"\""]));
     acc
 }
@@ -528,4 +548,26 @@ pub fn run(tier: Tier) -> i32 {
     rep.assume("floats outside the Clinger fast-path family are compared with std's float parser (trusted), except the listed hard cases whose bit patterns are constants");
     rep.assume("decimals with more than 28 fractional digits or beyond 96 bits with a fraction, unterminated \\u{, and float literals overflowing to infinity are left unspecified (DESIGN §5)");
     rep.finish()
+}
+
+pub fn replay(case: &serde_json::Value) -> i32 {
+    if case.get("kind").and_then(|k| k.as_str()) == Some("name-literal") {
+        let text = case.get("text").and_then(|t| t.as_str()).unwrap_or("");
+        let want = case.get("want").and_then(|t| t.as_str()).unwrap_or("");
+        let run = || crate::engine::panic::catch(|| reval::prelude::Rule::parse(text).map(|r| r.name().to_string()).map_err(|e| e.to_string()));
+        let (a, b) = (run(), run());
+        if a != b {
+            println!("replay not deterministic");
+            return 2;
+        }
+        println!("text     : {text:?}\nexpected : name {want:?}\nobserved : {a:?}");
+        return if matches!(&a, Ok(Ok(n)) if n == want) {
+            println!("verdict  : holds");
+            0
+        } else {
+            println!("verdict  : VIOLATED");
+            1
+        };
+    }
+    super::c07::replay(case)
 }
